@@ -19,6 +19,12 @@ func InstantiatePuppetType(ctx px.Context, loader ContentProvidingLoader, tn px.
 		}
 		px.AddTypes(ctx, nt)
 	} else {
-		px.AddTypes(ctx, types.NamedType(tn.Authority(), tn.Name(), dt))
+		switch dt.(type) {
+		case *types.DeferredType, px.OrderedMap:
+			px.AddTypes(ctx, types.NamedType(tn.Authority(), tn.Name(), dt))
+		default:
+			// e.g. an empty file or a literal: nothing that a type can be created from
+			panic(px.Error(px.NoDefinition, issue.H{`source`: sources[0], `type`: px.NsType, `name`: tn.Name()}))
+		}
 	}
 }
